@@ -1508,7 +1508,11 @@ def can_extend_leaf_to_make_quantifier_match_parent(
             ]
             assert mapping_paths
 
-            if all(
+            # NOTE: This only holds if the leaf is at (or, after the truncation above,
+            #       below) the position of that dummy variable. If the prefix tree has
+            #       further structure *below* the leaf, the leaf has to be expanded in
+            #       a particular way for the quantifier to match.
+            if path_to_node_in_prefix_tree in reverse_var_map and all(
                 isinstance(reverse_var_map[mapping_path], language.DummyVariable)
                 and is_nonterminal(reverse_var_map[mapping_path].n_type)
                 for mapping_path in mapping_paths
